@@ -11,6 +11,8 @@ D: trees (exhaustive small ones over the converter's vocabulary + random deeper/
    (compositional twin of the C19_form_* theorems, calm schema-shaped trees), no rendered None, determinism, input tree not mutated) runs on the
    implementation's output itself; the HISTORY oracle converts sequences of trees in freshly forked processes
    (tools/props/c19_iso.py) and compares every result with the conversion of the same tree alone.
+   common.env_sweep repeats a sample of the conversions (and generated DOCX/PPTX documents) under DEBUG logging,
+   in a worker thread, under other time zones and another cwd.
    If the literal extraction fails, the G obligation stays broken and the search continues with the committed
    baseline tables.
 """
@@ -1154,6 +1156,7 @@ def run(ctx):
 
     entry_points(ctx, mod)
     deep_and_pptx(ctx, mod, tabs)
+    environment_sweep(ctx, mod, cases)
 
 
 def entry_points(ctx, mod):
@@ -1198,6 +1201,47 @@ def entry_points(ctx, mod):
         except Exception as ex:  # noqa
             ctx.finding(f"docx-extraction-fails:{name}", f"read_docx fails on a document whose only special content is the formula {name}: {type(ex).__name__}: {ex}",
                         {"document_xml": doc, "exception": repr(ex)})
+
+
+def environment_sweep(ctx, mod, cases):
+    """the conversion (and the extractors around it) must not depend on logging level, thread, time zone or cwd:
+    common.env_sweep over a sample of the generated trees — every structural nesting, every plain/unsupported
+    container kind (box, limLow, groupChr, ...), function names, sparse operands, sequences with pending radicals,
+    random schema-shaped and malformed trees — and over generated DOCX/PPTX documents"""
+    from sharepoint2text.parsing.extractors.ms_modern import docx_extractor, pptx_extractor
+    by_kind = {}
+    for kind, tree in cases:
+        by_kind.setdefault(kind.split("/")[0].split(":")[0], []).append(tree)
+    rng = ctx.rng
+    sample = []
+    quota = {"nest": 60, "exh2": 60, "exh1": 60, "func-name": 30, "sparse": 30, "seq1": 10, "seq2": 30, "seq3": 20,
+             "random": 100, "malformed": 50}
+    for k, n in quota.items():
+        pool = by_kind.get(k, [])
+        sample += pool if len(pool) <= n else rng.sample(pool, n)
+    # text below every element kind that has no rendering of its own, also as the name/limit of a function
+    for tag in ("box", "limLow", "limUpp", "groupChr", "borderBox", "eqArr", "sPre", "phant", "m", "unknownThing"):
+        sample.append(wrap([N("m:" + tag, N("m:e", mrun("p" + tag)), N("m:lim", mrun("q"))), mrun("r")]))
+        sample.append(wrap([N("m:func", N("m:fName", N("m:" + tag, N("m:e", mrun("lim")), N("m:lim", mrun("n→∞")))),
+                            N("m:e", mrun("a")))]))
+    xmls = list(dict.fromkeys(to_xml(t, root=True) for t in sample))
+    short = lambda x: re.sub(r' xmlns:\w+="[^"]*"', "", x if isinstance(x, str) else f"{x[0]}: {x[1]}")
+    common.env_sweep(ctx, "omml_to_latex", lambda x: mod.omml_to_latex(ET.fromstring(x)), xmls, describe=short)
+
+    A14 = "http://schemas.microsoft.com/office/drawing/2010/main"
+    docs = []
+    for x in xmls[-6:] + xmls[:4]:
+        docs.append(("docx", x))
+        docs.append(("pptx", x))
+
+    def extract(case):
+        kind, fx = case
+        if kind == "docx":
+            r = list(docx_extractor.read_docx(docx_bytes(f"<w:p><w:r><w:t>before </w:t></w:r>{fx}</w:p>"), path="f.docx"))[0]
+            return (r.get_full_text(), [(f.latex, f.is_display) for f in r.formulas])
+        r = list(pptx_extractor.read_pptx(pptx_bytes(f'<a14:m xmlns:a14="{A14}">{fx}</a14:m>'), path="f.pptx"))[0]
+        return (r.get_full_text(), [(f.latex, f.is_display) for sl in r.slides for f in sl.formulas])
+    common.env_sweep(ctx, "formula-documents", extract, docs, describe=short)
 
 
 def chain_formula(n, kind):
